@@ -234,7 +234,7 @@ func (p latticePoly) inShell(i, j int) bool {
 
 func (p latticePoly) pieceVertices(face, level, k int) []gen.P {
 	v := p.piece(face, level, k).Vertices()
-	r := ((p.Rot%4)+4)%4 * p.S
+	r := ((p.Rot % 4) + 4) % 4 * p.S
 	return append(append([]gen.P{}, v[r:]...), v[:r]...)
 }
 
